@@ -89,4 +89,29 @@ theorem whileFuel_pad (dim : Nat) : ∀ (n : Nat) (l : List Nat), dim + 1 - l.le
       rw [whileFuel, if_neg (by simp [hc'])]
       simp [this]
 
+/-- a `for` loop whose body only updates the state is a left fold -/
+theorem forIn_yield {β σ : Type} (g : β → σ → σ) : ∀ (l : List β) (s : σ),
+    (forIn (m := Except PyErr) l s fun (x : β) (r : σ) => pure (ForInStep.yield (g x r))) =
+      .ok (l.foldl (fun r x => g x r) s)
+  | [], s => rfl
+  | x :: xs, s => by
+    rw [List.forIn_cons]
+    simp only [pure_bind, List.foldl_cons]
+    exact forIn_yield g xs (g x s)
+
+/-- `g` applied `k` times -/
+def iter {σ : Type} (g : σ → σ) : Nat → σ → σ
+  | 0, s => s
+  | k + 1, s => iter g k (g s)
+
+/-- folding a step that ignores the counter over `range k` iterates the step `k` times -/
+theorem foldl_range_const {σ : Type} (g : σ → σ) (k : Nat) (s : σ) :
+    (List.range k).foldl (fun r _ => g r) s = iter g k s := by
+  have : ∀ (l : List Nat) (s : σ), l.foldl (fun r _ => g r) s = iter g l.length s := by
+    intro l
+    induction l with
+    | nil => intro s; rfl
+    | cons x xs ih => intro s; simp [List.foldl_cons, ih, iter]
+  simpa using this (List.range k) s
+
 end Src
